@@ -30,7 +30,60 @@ fn restore(graph: &GraphEngine, h: u64, b: &Block) {
     let _ = graph.store().put(format!("chain:block:{h}"), d);
 }
 
+/// B4: two workspaces on different keys; the second one's whole commit runs inside the first one's window between building
+/// its block and appending it (schedule hook).  Afterwards every block in the chain must have its writes in the store.
+fn commit_race(_req: &Value) -> Value {
+    use std::sync::mpsc;
+    use std::sync::atomic::{AtomicBool, Ordering};
+    use tensor_chain::TensorChain;
+    let tc = Arc::new(TensorChain::new(tensor_store::TensorStore::new(), "n1"));
+    if let Err(e) = tc.initialize() { return json!({"error": e.to_string()}); }
+    let (wa, wb) = match (tc.begin(), tc.begin()) { (Ok(a), Ok(b)) => (a, b), _ => return json!({"error": "begin failed"}) };
+    let _ = wa.add_operation(Transaction::Put { key: "ka".into(), data: vec![1] });
+    let _ = wb.add_operation(Transaction::Put { key: "kb".into(), data: vec![2] });
+    let slot: Arc<std::sync::Mutex<Option<std::thread::JoinHandle<Result<String, String>>>>> = Arc::new(std::sync::Mutex::new(None));
+    let fired = Arc::new(AtomicBool::new(false));
+    let main_thread = std::thread::current().id();
+    let (tc2, wb2, slot2, fired2) = (tc.clone(), wb.clone(), slot.clone(), fired.clone());
+    *tensor_chain::VERIF_COMMIT_WINDOW.write() = Some(Arc::new(move || {
+        if std::thread::current().id() != main_thread || fired2.swap(true, Ordering::SeqCst) {
+            return;
+        }
+        let (tx, rx) = mpsc::channel();
+        let (tc3, wb3) = (tc2.clone(), wb2.clone());
+        let h = std::thread::spawn(move || {
+            let r = tc3.commit(&wb3).map(|h| format!("{:02x?}", &h[..4])).map_err(|e| e.to_string());
+            let _ = tx.send(());
+            r
+        });
+        let _ = rx.recv_timeout(std::time::Duration::from_millis(300));
+        *slot2.lock().unwrap() = Some(h);
+    }));
+    let ra = tc.commit(&wa).map(|h| format!("{:02x?}", &h[..4])).map_err(|e| e.to_string());
+    *tensor_chain::VERIF_COMMIT_WINDOW.write() = None;
+    let rb = slot.lock().unwrap().take().map(|h| h.join().unwrap_or_else(|_| Err("panicked".into())));
+    // what the chain says was committed vs what the store holds
+    let mut committed: Vec<String> = vec![];
+    for h in 1..=tc.height() {
+        if let Ok(Some(b)) = tc.get_block(h) {
+            for t in &b.transactions { committed.push(t.affected_key().to_string()); }
+        }
+    }
+    let missing: Vec<String> = committed.iter().filter(|k| !tc.store().exists(k)).cloned().collect();
+    let stray: Vec<&str> = ["ka", "kb"].into_iter().filter(|k| tc.store().exists(k) && !committed.iter().any(|c| c == k)).collect();
+    // a commit that returned Ok must be in the chain with its write in the store
+    let mut lost: Vec<&str> = vec![];
+    if ra.is_ok() && !(committed.iter().any(|k| k == "ka") && tc.store().exists("ka")) { lost.push("ka"); }
+    if matches!(rb, Some(Ok(_))) && !(committed.iter().any(|k| k == "kb") && tc.store().exists("kb")) { lost.push("kb"); }
+    let verify = tc.verify().map_err(|e| e.to_string());
+    json!({"first_commit": ra, "second_commit": rb, "height": tc.height(), "keys_in_blocks": committed, "committed_keys_missing_from_store": missing, "stored_keys_of_failed_commits": stray,
+           "successful_commits_not_in_chain_and_store": lost, "verify": verify.clone(), "violates": !missing.is_empty() || !stray.is_empty() || !lost.is_empty() || verify.is_err()})
+}
+
 pub fn handle(op: &str, req: &Value) -> Option<Value> {
+    if op == "chain_commit_race" {
+        return Some(commit_race(req));
+    }
     if op != "chain_step" {
         return None;
     }
